@@ -204,6 +204,20 @@ Theorem C04_tftp_within_budget : forall ds t,
   length ds <= t -> udp_seq SVC_TFTP t ds = udp_seq_expected SVC_TFTP ds.
 Proof. exact tftp_within_budget. Qed.
 
+
+(* tftp uploads (multi-datagram): a write request replaces whatever upload was open for the
+   source, and the last block reports the upload's OWN filename, mode and content *)
+Theorem C04_tftp_wrq_opens_a_new_upload : forall st fname mode rest r2 tail,
+  split_delim 0%N rest = Some (fname, r2) -> split_delim 0%N r2 = Some (mode, tail) ->
+  forall a, tftp_transfer st (a :: 2%N :: rest) = (Some (fname, mode, []), []).
+Proof. exact tftp_wrq_replaces. Qed.
+
+Theorem C04_tftp_last_block_reports_its_upload : forall fname mode content a blk data,
+  length data < 512 -> length blk = 2 ->
+  tftp_transfer (Some (fname, mode, content)) (a :: 3%N :: blk ++ data) =
+  (None, [mkEv EV_TFTP_FILE [fname; mode; content ++ data]]).
+Proof. exact tftp_last_block. Qed.
+
 (* ... and beyond it none is (defect); memcached stops reporting inside a datagram (defect) *)
 Theorem C04_tftp_limiter_refuted :
   let ds := [W_RRQ 1; W_RRQ 2; W_RRQ 3; W_RRQ 4; W_RRQ 5] in
@@ -326,3 +340,5 @@ Print Assumptions C04_tftp_within_budget.
 Print Assumptions C04_tftp_limiter_refuted.
 Print Assumptions C04_memcached_limiter_refuted.
 Print Assumptions C04_chunked_body_persistent.
+Print Assumptions C04_tftp_wrq_opens_a_new_upload.
+Print Assumptions C04_tftp_last_block_reports_its_upload.
